@@ -198,6 +198,10 @@ pub fn unescape_debug(s: &str) -> Option<String> {
             _ => return None,
         }
     }
+    // the quoted form must be exactly Rust's `{:?}` of the text: quotes, backslashes and control characters escaped
+    if format!("{:?}", out) != s {
+        return None;
+    }
     Some(out)
 }
 
@@ -854,7 +858,10 @@ impl BuilderArea {
                                     }
                                     show_dbg(0, &p)
                                 }
-                                None => format!("unparsable:{}", hex(&a)),
+                                None => {
+                                    cx.fail("C19", format!("debug output {} is not `KIND@RANGE` followed by the text in escaped, quoted form", hex(&a)));
+                                    format!("unparsable:{}", hex(&a))
+                                }
                             },
                             _ => {
                                 let is_node = matches!(e, NodeOrToken::Node(_));
@@ -893,7 +900,10 @@ impl BuilderArea {
                                             }
                                             out.push(show_dbg(indent / 2, &p));
                                         }
-                                        None => out.push(format!("unparsable:{}", hex(l))),
+                                        None => {
+                                            cx.fail("C19", format!("line {} of the recursive debug of e{} ({}) is not `KIND@RANGE` + escaped, quoted text", i, id, hex(l)));
+                                            out.push(format!("unparsable:{}", hex(l)))
+                                        }
                                     }
                                 }
                                 out.join(" ")
